@@ -185,6 +185,57 @@ impl Monitor for C18 {
             }
             obs.count("block_table_init_races");
         }
+        // cross-object probes: objects for the same pattern text that differ only in dialect or in
+        // flags must not influence each other, whatever the order in which they are compiled. The
+        // pattern text is unique per history, so nothing compiled earlier in this process has seen it.
+        {
+            let mut r = Rng::derive(seed, &[7]);
+            let u: String = (0..6).map(|_| (b'a' + r.below(26) as u8) as char).collect();
+            let up = u.to_uppercase();
+            let p_anchor = format!("^{}", u);
+            let lit_in = format!("x^{}", u);
+            let first_xpath = r.chance(1, 2);
+            let comp = |d: engine::Dialect, p: &str, f: &str| -> Result<Regex, String> {
+                match engine::compile(p, f, d) {
+                    Ok(Ok(r)) => Ok(r),
+                    other => Err(format!("{:?}", other.map(|x| x.map(|_| ())))),
+                }
+            };
+            let order = if first_xpath { [engine::Dialect::XPath, engine::Dialect::Xsd] } else { [engine::Dialect::Xsd, engine::Dialect::XPath] };
+            let mut objs = vec![];
+            for d in order {
+                match comp(d, &p_anchor, "") {
+                    Ok(r) => objs.push((d, r)),
+                    Err(e) => return Outcome::Violated(vec![Finding::new("pool_pattern_failed", e, "compiles")]),
+                }
+            }
+            for (d, re) in &objs {
+                let anchored = engine::is_match(re, &u).unwrap_or(false);
+                let literal = engine::is_match(re, &lit_in).unwrap_or(false);
+                let want = if *d == engine::Dialect::XPath { (true, false) } else { (false, true) };
+                if (anchored, literal) != want {
+                    return Outcome::Violated(vec![Finding::new(
+                        "result_depends_on_other_objects",
+                        format!("{:?} object for {:?} (compiled {}): is_match({:?})={}, is_match({:?})={}", d, p_anchor, if (*d == engine::Dialect::XPath) == first_xpath { "first" } else { "after the other dialect's object for the same text" }, u, anchored, lit_in, literal),
+                        format!("{:?}", want),
+                    )]);
+                }
+            }
+            // same text, different flags
+            let flag_order: [&str; 2] = if r.chance(1, 2) { ["", "i"] } else { ["i", ""] };
+            for f in flag_order {
+                match comp(engine::Dialect::XPath, &u, f) {
+                    Ok(re) => {
+                        let got = engine::is_match(&re, &up).unwrap_or(false);
+                        if got != (f == "i") {
+                            return Outcome::Violated(vec![Finding::new("result_depends_on_other_objects", format!("pattern {:?} flags {:?}: is_match({:?}) = {}", u, f, up, got), format!("{}", f == "i"))]);
+                        }
+                    }
+                    Err(e) => return Outcome::Violated(vec![Finding::new("pool_pattern_failed", e, "compiles")]),
+                }
+            }
+            obs.count("cross_object_probes");
+        }
         let (pool_idx, ops) = gen_history(seed, nops);
         // (1) expected results: every op on a freshly compiled object, single-threaded
         let mut expected = vec![];
